@@ -8,25 +8,31 @@ PID = "C08"
 
 CLAIM = dict(
     text="PARTIAL by design. wasmparser's validator and its type information are external Rust code and stay oracles "
-         "(assumed well-formed); the Coq theorems are about the wac conversion logic (an executable model of "
-         "Package::from_bytes / TypeConverter with its cache, owners, resource_map, use_or_own, self-ownership reset and "
-         "find_definitions) over an abstract copy of the validator's type graph: the world lists exactly the component's "
-         "imports and exports in order with the right kinds and the instance type is the export list "
-         "(convert_lists_exactly); on the resource-free fragment every converted kind unfolds to exactly the tree of the "
-         "validator entity (convert_tree_faithful_partial). Cache consistency, resource aliasing and used-type provenance "
-         "are specified (ConvertSpec.v) and evaluated as executable predicates on every implementation observation, not "
-         "proved. Agreement with the reference validator is checked by correspondence only: for every generated component "
-         "(WIT worlds through wit-component, shaped WAT) an independent wasmparser walk produces the type graph, the real "
-         "Package::from_bytes result is compared arena by arena with the extracted model and against the specification "
-         "predicates, and the package is re-encoded with define_components=false and the ORIGINAL component is substituted "
-         "for the emitted unlocked-dep import inside an outer component validated by wasmparser.",
+         "(assumed well-formed: finite, well-founded type graph, unique import/export names); the Coq theorems are about the "
+         "wac conversion logic -- an executable model of Package::from_bytes / TypeConverter with its cache, owners, "
+         "resource_map, use_or_own, self-ownership reset and find_definitions -- over an abstract copy of the validator's "
+         "type graph. Proved: the world lists exactly the component's imports and exports in order with the right kinds "
+         "and the instance type is the export list (convert_lists_exactly); on the resource-free fragment every item "
+         "unfolds to exactly the tree of the validator entity: parameter names/order/result/async flag, every value-type "
+         "constructor, names and order inside nested instance and component types, core module types "
+         "(convert_tree_faithful_partial); the cache is never overwritten and the same validator identifier always converts "
+         "to the same wac identifier (convert_cache_consistent, model level). Resource aliasing, used-type provenance and "
+         "the one-to-one correspondence of identifiers are SPECIFIED (ConvertSpec.v) and evaluated as executable predicates "
+         "on every implementation observation, not proved. Agreement with the reference validator is checked by "
+         "correspondence only: for every generated component (WIT worlds through wit-component, shaped WAT) an independent "
+         "wasmparser walk produces the type graph, the real Package::from_bytes result is compared arena by arena with the "
+         "extracted model and against the specification predicates; the satisfiability half is a TEST, not a theorem: the "
+         "package is re-encoded with define_components=false and the ORIGINAL component is substituted for the emitted "
+         "unlocked-dep import inside an outer component validated by wasmparser. Eleven defects/limitations found this way "
+         "are reported as known findings.",
     design_ref="DESIGN.md §5 C08, §10",
     note="Trusted: Coq kernel, extraction, OCaml driver (incl. structural equality of extracted trees), Rust harness "
          "(validator-graph dumper, arena printer, outer-component assembler), wasmparser/wit-component/wit-parser/"
          "wasm-encoder/wat as reference tools. TypeEncoder (the re-encoding half) is not modelled: it is checked on the "
          "implementation only.",
-    technique="Coq proof (state-threading invariant over a fuel-indexed conversion, arena extension) + extracted-model "
-              "correspondence + specification predicates on implementation observations + reference-validator substitution test")
+    technique="Coq proof (robust cache invariant over a fuel-indexed, state-threading conversion; arena frame relation; "
+              "rank argument for the cache) + extracted-model correspondence (whole-arena equality) + specification "
+              "predicates on implementation observations + reference-validator substitution test")
 
 # ---------------------------------------------------------------------------------------------------------------------
 # Findings proposed to the main session (see the final report).  Consulted locally so that the check exits 0 on the
